@@ -35,6 +35,8 @@ CONFIGS = [
     ("clr2", "MC_Flurry", "MC_clr2.cfg", {"C05", "C07"}, "ok", "quick", ["ClrReval", "ItYield"]),
     # reserve() / try_presize racing the lazy initialisation and an insert (null table, DCAP = 2, one resize)
     ("rsv1", "MC_Flurry", "MC_rsv1.cfg", {"C14", "C10", "C11"}, "ok", "thorough", ["PsCasInit", "PsInitSwap", "PsCasStart"]),
+    # an overfull list bin in a short table: put -> treeify_bin -> try_presize(2n), two resize generations
+    ("ovf", "MC_Flurry", "MC_ovf.cfg", {"C14", "C10"}, "ok", "thorough", ["PsCasStart", "XSwapTable"]),
     ("sizing", "Sizing", "Sizing.cfg", {"C14", "C10"}, "ok", "quick", []),
     ("reclaim", "Reclaim", "MC_Reclaim.cfg", {"C03", "C04"}, "ok", "quick", []),
     ("reclaim_unprotected", "Reclaim", "MC_Reclaim_unprotected.cfg", {"C03"}, "NoUseAfterFree", "quick", []),
